@@ -149,6 +149,10 @@ def parseOp (s : String) : Option Op :=
   | ["ud", h] => (nat? h).map .unregDyn
   | ["ra", h, p] => (nat? h).map (.regAny · (p == "1"))
   | ["ua", h] => (nat? h).map .unregAny
+  -- the owner of a bound-method handler is deleted: its weak reference's callback (`listener_deleted`) takes the
+  -- wrapper out of the list it sits in
+  | ["kd", h] => (nat? h).map .unregDyn
+  | ["ka", h] => (nat? h).map .unregAny
   | ["ro", h] => (nat? h).map .regObs
   | ["iro", h] => (nat? h).map .regObs
   | ["iro", h, _] => (nat? h).map .regObs
